@@ -104,9 +104,11 @@ def gen_case(st, i, tier="quick", op=None):
         elif r < 0.2:
             params["max_distance"] = float("inf")
         else:
-            mult = rng.choice([0.5, 1, 1.5, 2, 2.5, 3, 4, 6, 8])
+            mult = rng.choice([0.5, 1, 1.5, 2, 2.5, 3, 4, 5, 6, 7, 8, 9])
             unit = rng.choice([cx, cy, 1.0])
-            md = mult * unit
+            # the decimal a user would type (0.7, not 7*0.1 = 0.7000000000000001): max_distance/cellsize
+            # then falls just below or above an integer number of cells
+            md = round(mult * unit, 10) if rng.random() < 0.7 else mult * unit
             if lonlat and rng.random() < 0.7:
                 md = mult * unit * 111000.0 * rng.choice([1, 1, 30])
             params["max_distance"] = float(md)
@@ -158,11 +160,35 @@ def _place_edge_targets(rng, case):
 
 
 def variants(case, st):
-    """A second chunking of the same raster shares the NumPy reference."""
+    """(variant case, needs its own NumPy reference?).
+
+    1. a second chunking of the same raster (shares the reference);
+    2. a *different* raster of the same shape, dims and chunking - other georeferencing, other
+       targets - right after the first one in the same process: anything the first call left
+       behind that is keyed on shape/chunks only would leak into it."""
     c = copy.deepcopy(case)
     r = c["rasters"][0]
     r["chunks"] = g.chunks_for(st["chunks2"], r["data"].shape)
-    return [c]
+    out = [(c, False)]
+    rng = st["variant-b"]
+    if rng.random() < 0.5:
+        b = copy.deepcopy(case)
+        rb = b["rasters"][0]
+        H, W = rb["data"].shape
+        x = np.asarray(rb["coords"]["x"], dtype=float)
+        y = np.asarray(rb["coords"]["y"], dtype=float)
+        fx, fy = rng.choice([0.5, 2.0, 3.0]), rng.choice([0.5, 2.0, 3.0])
+        rb["coords"]["x"] = x[0] + (x - x[0]) * fx + rng.choice([0.0, 10.0])
+        rb["coords"]["y"] = y[0] + (y - y[0]) * fy
+        if "res" in rb["attrs"]:
+            res = rb["attrs"]["res"]
+            rb["attrs"]["res"] = (res[0] * fx, res[1] * fy) if isinstance(res, tuple) else None
+            if rb["attrs"]["res"] is None:
+                del rb["attrs"]["res"]
+        rb["data"] = np.roll(rb["data"], (1, 2), axis=(0, 1)).copy()
+        if in_domain(b):
+            out.append((b, True))
+    return out
 
 
 def compare(case, got, want):
